@@ -38,7 +38,63 @@ PROGS = [
 
 
 def nontrivial_engine(evs):
-    return any(e["e"] == "SyncConnRet" and not e["ok"] for e in evs)
+    return any(e["e"] == "SyncConnRet" and not e["ok"] for e in evs) or stale_window(evs)
+
+
+def stale_window(evs):
+    """black-hole programs: the attempt was queued and the old session's socket became writable again before the I/O thread
+    processed the close of that session - its next epoll batch carries a stale event for a recycled descriptor number"""
+    names = [(e["e"], e.get("s")) for e in evs]
+    try:
+        drain = names.index(("PDrain", None))
+        return drain < names.index(("Close", 1)) and any(n[0] in ("ConnRet", "SyncConnCall") for n in names[:drain])
+    except ValueError:
+        return False
+
+
+def engine_batch(ck, thorough):
+    """EngineBatch.tla: how the TCP engine's I/O thread walks one epoll batch by descriptor NUMBER while process() releases and
+    re-issues numbers.  The code (getpeername probe, no skipping of entries for numbers released in the batch) keeps
+    NoFalseConnect; without the probe TLC's counterexample is the black-hole program run on the real engine below; with the
+    usual remedy (SkipClosedInBatch) both invariants hold.  NoCollateralClose does NOT hold for the code - observed on the real
+    engine as well (DESIGN 8.5), no listed property, reported as an observation."""
+    tla_path = os.path.join(SPECDIR, "EngineBatch.tla")
+    jobs = [("code", True, False, ["TypeOK", "NoFalseConnect"]), ("noprobe", False, False, ["TypeOK", "NoFalseConnect"]),
+            ("observe", True, False, ["NoCollateralClose"]), ("remedy", False, True, ["TypeOK", "NoFalseConnect", "NoCollateralClose"])]
+
+    def go(job):
+        name, probe, skip, invs = job
+        cfg = os.path.join(ck.work, "batch_%s.cfg" % name)
+        vf.write_cfg(cfg, constants={"Fds": "{1, 2}", "MaxGen": 3 if thorough and name == "code" else 2, "ProbeOnWritable": probe,
+                                     "SkipClosedInBatch": skip}, invariants=invs)
+        return job, vf.run_tlc(tla_path, cfg, tag="C04_batch_" + name, workers=4, coverage=name == "code", timeout=1500)
+    with cf.ThreadPoolExecutor(max_workers=4) as ex:
+        res = list(ex.map(go, jobs))
+    for (name, probe, skip, invs), r in res:
+        if r.error:
+            raise vf.Infra("TLC failed on EngineBatch %s: %s" % (name, r.error))
+        ck.states += r.distinct
+        ck.transitions += r.generated
+        if name == "noprobe":
+            if r.violated != "NoFalseConnect":
+                raise vf.Infra("self-test: EngineBatch.tla with ProbeOnWritable=FALSE should violate NoFalseConnect, got %r" % r.violated)
+        elif name == "observe":
+            ck.note("OBSERVATION (no listed property): EngineBatch.tla with the code's constants %s NoCollateralClose (violated = a stale "
+                    "hang-up entry for a recycled descriptor number closes the new owner)" % ("violates" if r.violated else "keeps"))
+        else:
+            ck.note("EngineBatch %s: %s" % (name, r.summary()))
+            if name == "code":
+                for a, (tk, gn) in r.coverage.items():
+                    ck.cov["Batch." + a] = gn
+                for a in ["AppConnect", "AppClose", "KernelWritable", "KernelReset", "Wait", "StepCmd", "StepSkip", "StepWritable", "StepHangup"]:
+                    if ck.cov.get("Batch." + a, 0) == 0:
+                        raise vf.Infra("self-test: EngineBatch action %s never taken" % a)
+            if r.violated:
+                rp = ck.save_replay("impl_batch_" + name, {"tlc.out": r.out})
+                if name == "code":
+                    ck.violation("EngineBatch.tla (the design the engine follows) violates %s" % r.violated, rp)
+                else:
+                    raise vf.Infra("self-test: EngineBatch.tla with SkipClosedInBatch should keep every invariant, violated %r" % r.violated)
 
 
 def run(ck):
@@ -79,6 +135,7 @@ def run(ck):
     for a in ["Register", "WakeDone", "TimeoutUnlock", "IssueClose", "ReturnTimeout", "IoOnConnect", "IoOnClose", "Fence", "ReturnShutdown"]:
         if ck.cov.get(a, 0) == 0:
             raise vf.Infra("self-test: SyncConnect action %s never taken" % a)
+    engine_batch(ck, thorough)
     lines = []
     nsched = 200 if thorough else 40
     for i, p in enumerate(PROGS):
@@ -102,6 +159,26 @@ def run(ck):
               for proto in ("tcp", "tcpb") for k in range((150 if thorough else 40) if proto == "tcp" else (40 if thorough else 10))]
     tc.run_cases(ck, elines, "engine_csync", nontrivial_engine, **kw)
     tc.run_dfs(ck, "tcp | " + eprog, 1 if not thorough else 2, 8000 if thorough else 400, "engine_dfs", nontrivial_engine, **kw)
+    # "success only for a completed handshake" against STALE readiness events: the target is a black hole (a loopback listener
+    # with a full accept queue: SYNs are dropped, the attempt stays in SYN_SENT).  A session with unsent output is closed, the
+    # attempt is queued, and the old session's peer starts reading - all before the I/O thread looks again: its next batch is
+    # [eventfd, old descriptor: writable]; the close releases the descriptor number, the new socket gets it, and the stale
+    # "writable" is dispatched to the connecting session.  It must not be taken for a completed connect.
+    holes = ["main=hole,listen,peer:1,waitn:1,send:1:8000000,spin:40,close:1,connectto:hole,pdrain:1,spin:60,stop",
+             # (connectSync: the I/O thread is held in a slow data callback of another session while the three things happen)
+             "main=hole,listen,peer:1,peer:2,waitn:2,send:1:8000000,spin:40,cbwait:h,psend:2:4,spin:20,setflag:g,waitflag:c,sleep:5,pdrain:1,setflag:h,spin:60,waitflag:d,stop ; a=waitflag:g,close:1,setflag:c,csync:100000:hole,setflag:d"]
+    hlines = ["%s | %s | random %d" % (proto, p, ck.seed * 6011 + k) for proto in ("tcp", "tcpb") for pi, p in enumerate(holes)
+              for k in range((60 if thorough else 12) if proto == "tcp" else 6)]
+    tc.run_cases(ck, hlines, "engine_hole", nontrivial_engine, **kw)
+    tc.run_dfs(ck, "tcp | " + holes[0], 1, 2000 if thorough else 200, "engine_hole_dfs0", nontrivial_engine, **kw)
+    tc.run_dfs(ck, "tcp | " + holes[1], 1 if not thorough else 2, 6000 if thorough else 400, "engine_hole_dfs1", nontrivial_engine, **kw)
+    hits = {}
+    for nm in ("engine_hole", "engine_hole_dfs0", "engine_hole_dfs1"):
+        fp = os.path.join(ck.work, nm + ".ndjson")
+        if os.path.exists(fp):
+            xs = vf.split_executions(vf.read_ndjson(fp))
+            hits[nm] = "%d of %d" % (sum(1 for x in xs if stale_window(x[1])), len(xs))
+    ck.note("black-hole programs: executions in which a stale readiness event reached the connecting session's descriptor: %s" % hits)
     real_engine(ck, thorough)
 
 
